@@ -767,6 +767,21 @@ def _main(pid, P, tier, repo, seed, scratch, ev_path, t0):
         if names:
             fb_res = vpkani.run_harnesses({'kani': {'quick': names}}, 'quick', repo, pid)
 
+    # thorough tier: the concrete oracle sweeps that can name this property also run when every function verifies -- a bounded
+    # net under the contracts (a clause that is too weak to see a change), labelled bounded, never counted as an obligation
+    thorough_sweeps = []
+    if tier == 'thorough' and os.environ.get('VP_NO_SWEEP') != '1':
+        import vpreplay
+        scen = [sc for sc in vpreplay.SWEEPS_NAMING.get(pid, []) if not any(r.get('scenario') == ' '.join(sc) for r in sweep_runs)]
+        if scen:
+            key = ('sweep', tuple(tuple(x) for x in scen))
+            if key not in cache:
+                try:
+                    cache[key] = vpreplay.run_scenarios(repo, scen)[0]
+                except Exception as e:
+                    cache[key] = [dict(scenario='-', outcome='sweep driver error: %s' % e, findings=[], reproduced=False)]
+            thorough_sweeps = cache[key]
+
     obligations, discharged = 0, 0
     samples, fn_list, rewrites, solver_ms = [], [], {}, {}
     violations = []   # (failure dict, unit)
@@ -861,6 +876,9 @@ def _main(pid, P, tier, repo, seed, scratch, ev_path, t0):
             undecided.append('not verified (degraded to an assumed contract): ' + '; '.join('%s: %s' % (f['id'], f['degraded']) for _, f in degraded_relevant)[:1500]
                              + (' -- bounded stand-ins passed: ' + ','.join(h['name'] for h in fb_res['harnesses']) if fb_res and fb_res.get('harnesses') else '')
                              + (' -- concrete oracle sweeps found nothing for this property: ' + ', '.join(r['scenario'] for r in sweep_runs) if sweep_runs else ''))
+    for k, (sc, fd) in enumerate([(r['scenario'], fd) for r in thorough_sweeps for fd in r.get('findings', []) if pid in fd.get('tags', [])]):
+        violations.append((dict(kind='sweep-bounded', clause='sweep.%s.t%d' % ((sc or '-').split()[0], k + 1), tags=[pid], fn='-', repo_file=None, repo_line=None, fn_repo_lines=None,
+                                message='thorough tier, bounded check (concrete oracle sweep %s): %s' % (sc, fd['text']), rendered=fd['text'], concrete=[fd['text']]), None))
     # Kani part
     kres = kani
     for h in kres.get('harnesses', []):
@@ -894,7 +912,7 @@ def _main(pid, P, tier, repo, seed, scratch, ev_path, t0):
         'la_lemmas_verified_no_cheating': la_verified,
         'vacuity_probes_failed_as_required': sum(p[0] for p in probes),
         'bounded_checks': [dict(name=h['name'], bound=h.get('bound', ''), status=h['status']) for h in kres.get('harnesses', []) if h['kind'] != 'complete']
-                          + [dict(name='sweep ' + r['scenario'], bound='fixed finite set of concrete problems against an independent oracle (replay/drivers/vp_replay.rs)', status=r['outcome']) for r in sweep_runs],
+                          + [dict(name='sweep ' + r['scenario'], bound='fixed finite set of concrete problems against an independent oracle (replay/drivers/vp_replay.rs)', status=r['outcome']) for r in sweep_runs + thorough_sweeps],
         'complete_kani_harnesses': [dict(name=h['name'], status=h['status']) for h in kres.get('harnesses', []) if h['kind'] == 'complete'],
         'not_decided': P.get('not_decided', []),
         'assumed_from_dependency': P.get('assumed_from_dependency', []),
